@@ -325,11 +325,77 @@ func TestGovcBounded_C06(t *testing.T) {
 			check(append([]string(nil), set...), texts)
 		}
 	})
+	// a literal U+FFFD in patterns and texts is one rune of three bytes (not three stray bytes), next to real stray bytes
+	fffdTexts := c05strings([]string{"a", "�", "\xbd", "é"}, 4, 0)
+	for _, set := range [][]string{{"�"}, {"a�"}, {"�a", "é"}, {"��", "a"}, {"�é", "é�"}} {
+		check(set, fffdTexts)
+	}
+	// patterns that are not valid UTF-8 (whatever occurrence notion one takes for them): ReplaceWithMask keeps the rune
+	// count, every rune of the result is the mask or the rune of the text at that place, and a rune that contains no
+	// byte of any byte-wise occurrence is unchanged; Replace keeps every byte outside all byte-wise occurrences
+	for _, set := range [][]string{{"\xbd"}, {"\xbf", "a"}, {"\xef"}, {"\xbd", "\x80"}, {"a\xbd"}, {"\xe6\x97"}, {"\xa5", "日"}} {
+		tr := c05build(set)
+		for _, text := range c05strings([]string{"a", "�", "\xbd", "日", "\xe6\x97"}, 4, 0) {
+			e.cases++
+			func() {
+				defer func() {
+					if r := recover(); r != nil {
+						e.fail("patterns %q text %q: panic %v", set, text, r)
+					}
+				}()
+				covered := make([]bool, len(text))
+				for _, o := range c05occurrences(set, text) {
+					for i := o.start; i < o.stop; i++ {
+						covered[i] = true
+					}
+				}
+				got := tr.ReplaceWithMask(text, '*')
+				gi := 0
+				for i := 0; i < len(text); {
+					_, size := utf8.DecodeRuneInString(text[i:])
+					touched := false
+					for j := i; j < i+size; j++ {
+						touched = touched || covered[j]
+					}
+					switch {
+					case strings.HasPrefix(got[gi:], text[i:i+size]):
+						gi += size
+					case touched && strings.HasPrefix(got[gi:], "*"):
+						gi++
+					default:
+						e.fail("patterns %q: ReplaceWithMask(%q) = %q: the rune at byte %d is neither kept nor masked (or is masked outside every occurrence)", set, text, got, i)
+						return
+					}
+					i += size
+				}
+				if gi != len(got) {
+					e.fail("patterns %q: ReplaceWithMask(%q) = %q: rune count changed", set, text, got)
+					return
+				}
+				rep := tr.Replace(text, "#")
+				pos := 0
+				for i := 0; i < len(text); i++ {
+					if covered[i] {
+						continue
+					}
+					// (bytes of byte-wise occurrences may be kept or removed; the others must come through in order)
+					for pos < len(rep) && rep[pos] != text[i] {
+						pos++
+					}
+					if pos >= len(rep) {
+						e.fail("patterns %q: Replace(%q) = %q: byte %d lies in no occurrence and is lost", set, text, rep, i)
+						return
+					}
+					pos++
+				}
+			}()
+		}
+	}
 	// a long occurrence ending late that starts before several earlier, mutually disjoint occurrences
 	for _, set := range [][]string{{"ab", "de", "bcdefgh"}, {"ab", "cd", "ef", "bcdefg"}, {"a", "c", "e", "g", "abcdefgh"}, {"ab", "abcabc", "ca", "bc"}, {"aé", "ébaé", "ba"}} {
 		check(set, longTexts)
 	}
-	fmt.Printf("GOVC-BOUNDED name=C06 cases=%d failures=%d bound=\"all sets of 1-2 patterns over the %d strings of 1-3 pieces from {a,b,é} and all triples over an 8-string pool against all texts of up to %d pieces over {a,b,é,日,0x80}; five hand-picked sets with a long late-ending occurrence over five longer texts\"\n", e.cases, e.fails, len(pats), textLen)
+	fmt.Printf("GOVC-BOUNDED name=C06 cases=%d failures=%d bound=\"all sets of 1-2 patterns over the %d strings of 1-3 pieces from {a,b,é} and all triples over an 8-string pool against all texts of up to %d pieces over {a,b,é,日,0x80}; five sets with a literal U+FFFD against all texts of up to 4 pieces over {a,U+FFFD,0xbd,é}; seven sets of invalid-byte patterns against all texts of up to 4 pieces over {a,U+FFFD,0xbd,日,truncated 日} (rune count kept, runes kept or masked, untouched runes and bytes kept); five hand-picked sets with a long late-ending occurrence over five longer texts\"\n", e.cases, e.fails, len(pats), textLen)
 	if e.fails > 0 {
 		t.Fail()
 	}
